@@ -27,8 +27,17 @@ def forced_classes(rng, n):
     out = []
     pool = [K(i) for i in range(1, 9)] + [N(i) for i in range(1, 9)]
     for _ in range(n):
-        kind = rng.choice(["union_order", "hidden_join", "recreate", "identity_join"])
-        if kind == "union_order":
+        kind = rng.choice(["union_order", "hidden_join", "recreate", "identity_join", "shared_leaf"])
+        if kind == "shared_leaf":
+            # the SAME leaf object under a calculation and, elsewhere in the tree, as a join operand next to a relation
+            # that really has a column of the calculated tag (compiling one branch must not leak into the other)
+            a, b, d = K(1), rng.choice([K(2), N(1)]), rng.choice([K(3), N(2)])
+            l1 = ("leaf", 1, sp.SQL, sorted([a, b]), gen.gen_rows(rng, [a, b], 4), (0, None))
+            l2 = ("leaf", 2, sp.SQL, sorted([a, d]), gen.gen_rows(rng, [a, d], 4), (0, None))
+            x = ("un", ("calc", d, gen.gen_expr(rng, [a, b], 1, need_col=True)), mp.DEFAULT, l1)
+            y = ("join", None, True, False, l2, l1) if rng.random() < 0.7 else ("join", None, True, False, l1, l2)
+            p = ("chain", x, y) if rng.random() < 0.6 else ("chain", y, x)
+        elif kind == "union_order":
             cols = rng.sample(pool, rng.choice([2, 3, 4, 5]))
             extra = rng.choice([c for c in pool if c not in cols])
             l1 = ("leaf", 1, sp.SQL, sorted(cols), gen.gen_rows(rng, cols, 3), (0, None))
